@@ -12,12 +12,15 @@ import JRV.Driver.Transport
 import JRV.Driver.ServerLife
 import JRV.Driver.Server
 import JRV.Driver.JsonClass
+import JRV.Driver.EndToEnd
+import JRV.Driver.Future
+import JRV.Driver.Pool
 
 namespace JRV.Driver
 
 def components : List (String × (List String → String)) := [
   ("echo", echo), ("norm", norm), ("truthy", truthyC), ("pyeq", pyeqC), ("cmpint", cmpIntC)
-] ++ clientComponents ++ payloadComponents ++ headersComponents ++ wireComponents ++ configHeapComponents ++ transportComponents ++ serverLifeComponents ++ serverComponents ++ jsonClassComponents
+] ++ clientComponents ++ payloadComponents ++ headersComponents ++ wireComponents ++ configHeapComponents ++ transportComponents ++ serverLifeComponents ++ serverComponents ++ jsonClassComponents ++ endToEndComponents ++ futureComponents ++ poolComponents
 
 def handle (line : String) : String :=
   match JRV.Codec.tokens line with
